@@ -1230,7 +1230,8 @@ def run_e2e(ck):
     wbase = os.path.join(BUILD, 'c01work')
     shutil.rmtree(wbase, ignore_errors=True)
     os.makedirs(wbase, exist_ok=True)
-    budget = float(os.environ.get('C01_BUDGET_S', 75 if ck.tier == 'quick' else 1080))
+    # thorough: whole check (stage A ~1-2 min + this) stays under 15 min
+    budget = float(os.environ.get('C01_BUDGET_S', 75 if ck.tier == 'quick' else 720))
     t_build = time.time() - t_start
     if ck.tier == 'quick' and t_build > 60 and 'C01_BUDGET_S' not in os.environ:
         budget = 60.0                      # cold build: keep the whole quick tier near 3 minutes
